@@ -364,6 +364,38 @@ def is_escaper(prog, f):
     return len(rets) == 1 and isinstance(rets[0], ast.Call) and replace_chain_ok(prog, rets[0]) and len(f.params) == 2
 
 
+def const_of(e):
+    return e.value if isinstance(e, ast.Constant) else None
+
+
+def _wrapped(e, want):
+    """The expression standing in the single hole of e when e's text has the shape `want` (\\0 marks the hole); else None."""
+    from sa.template import template, shape, holes
+    t = template(e)
+    if t is not None and shape(t) == want and len(holes(t)) == 1 and holes(t)[0].spec is None:
+        return holes(t)[0].expr
+    return None
+
+
+def _local_def(at, name):
+    """Value of the closest assignment `name = ...` before `at` in the same statement list (or an enclosing one)."""
+    st = at
+    while st is not None and not isinstance(st, ast.stmt):
+        st = getattr(st, "_parent", None)
+    while st is not None:
+        par = getattr(st, "_parent", None)
+        for fld in ("body", "orelse", "finalbody"):
+            lst = getattr(par, fld, None)
+            if isinstance(lst, list) and st in lst:
+                for prev in reversed(lst[:lst.index(st)]):
+                    if isinstance(prev, ast.Assign) and any(isinstance(t, ast.Name) and t.id == name for t in prev.targets):
+                        return prev.value
+        if isinstance(par, (ast.FunctionDef, ast.Module)) or par is None:
+            return None
+        st = par
+    return None
+
+
 def classify_value(prog, qh, esc_funcs, d):
     """('ok', why) / ('unescaped', why) / ('bad', why)"""
     def esc(e):
@@ -375,16 +407,22 @@ def classify_value(prog, qh, esc_funcs, d):
         return ("ok", "comprehension of the quoting helper")
     if isinstance(d, ast.Attribute) and d.attr == "requires":
         return ("ok", "extension names (serializer quotes list items)")
-    # "[%s]" % ",".join('"%s"' % E for ...)   |  "[{}]".format(",".join('"{}"'.format(E) for ...))
-    wrappers = [b for b in ast.walk(d) if isinstance(b, ast.BinOp) and isinstance(b.op, ast.Mod) and isinstance(b.left, ast.Constant) and b.left.value == '"%s"']
-    wrappers += [c for c in ast.walk(d) if isinstance(c, ast.Call) and call_name(c) == "format" and isinstance(c.func.value, ast.Constant) and c.func.value.value == '"{}"']
-    outer = (isinstance(d, ast.BinOp) and isinstance(d.left, ast.Constant) and d.left.value == "[%s]") or (
-        isinstance(d, ast.Call) and call_name(d) == "format" and isinstance(d.func.value, ast.Constant) and d.func.value.value == "[{}]")
-    if outer and wrappers:
-        inner = wrappers[0].right if isinstance(wrappers[0], ast.BinOp) else (wrappers[0].args[0] if wrappers[0].args else None)
-        if inner is not None and esc(inner):
-            return ("ok", "inline list wrapper with escaping")
-        return ("unescaped", "inline list wrapper")
+    # [ <items joined by ","> ] with every item "<escaped value>", in any spelling of the two wrappers
+    outer = _wrapped(d, "[\0]")
+    if outer is not None:
+        src = outer
+        if isinstance(src, ast.Name):
+            src = _local_def(d, src.id) or src
+        comp = None
+        if isinstance(src, ast.Call) and isinstance(src.func, ast.Attribute) and src.func.attr == "join" and const_of(src.func.value) == "," and src.args \
+                and isinstance(src.args[0], (ast.ListComp, ast.GeneratorExp)):
+            comp = src.args[0]
+        if comp is not None:
+            inner = _wrapped(comp.elt, '"\0"')
+            if inner is not None and esc(inner):
+                return ("ok", "inline list wrapper with escaping")
+            if inner is not None:
+                return ("unescaped", "inline list wrapper")
     return ("bad", "no quoting recognised")
 
 
@@ -407,12 +445,11 @@ def f5_helper(ctx, R):
     # the helper itself
     if qh is None:
         raise AnalysisError("F5b", "quoting helper not found")
-    hw = [b for b in ast.walk(qh.node) if isinstance(b, ast.BinOp) and isinstance(b.op, ast.Mod) and isinstance(b.left, ast.Constant) and b.left.value == '"%s"']
-    hw += [c for c in ast.walk(qh.node) if isinstance(c, ast.Call) and call_name(c) == "format" and isinstance(c.func.value, ast.Constant) and c.func.value.value == '"{}"']
+    hw = [b for b in ast.walk(qh.node) if isinstance(b, (ast.BinOp, ast.Call, ast.JoinedStr)) and _wrapped(b, '"\0"') is not None]
     if not hw:
         raise AnalysisError("F5b", "quoting helper wraps nothing")
     for b in hw:
-        inner = b.right if isinstance(b, ast.BinOp) else (b.args[0] if b.args else None)
+        inner = _wrapped(b, '"\0"')
         if inner is not None and escaped(inner):
             ctx.holds("F5b", "%s: %s" % (qh.qualname, norm(b)))
         else:
